@@ -9,9 +9,9 @@ def check(run):
                        "the loaded object must load successfully, dump to identical text, satisfy OK(), denote the same value, and is driven "
                        "on as a twin (all later answers are validated against the same value); distinct = distinct status lines dumped")
     ops = polylib.OPS_MUT + ['dumpload', 'dumpload', 'is_empty', 'min_generators', 'constraints', 'contains', 'maximize', 'relation_with_constraint', 'swap', 'assign']
-    plans = [dict(maxlen=9, maxdim=2, ill=0, coef=2, num=(3000 if q else 50000), opset=ops, recipe=True),
-             dict(maxlen=12, maxdim=2, ill=0, coef=2, num=(1500 if q else 20000), opset=ops),
-             dict(maxlen=10, maxdim=3, ill=0, coef=2, num=(900 if q else 12000), opset=ops)]
+    plans = [dict(maxlen=9, maxdim=2, ill=0, coef=2, num=(3000 if q else 15000), opset=ops, recipe=True),
+             dict(maxlen=12, maxdim=2, ill=0, coef=2, num=(1500 if q else 1500), opset=ops),
+             dict(maxlen=10, maxdim=3, ill=0, coef=2, num=(900 if q else 4000), opset=ops)]
     polylib.model_pass(run, ['PolyWorld1.cfg'])
     polylib.run_pool(run, "C15", plans, ("C15:",))
     # boxes, BD shapes and octagons over exact and floating-point coefficients: dump / load as a state driver of the recipes (elements with
@@ -19,12 +19,12 @@ def check(run):
     sops = shapelib.IMG_BASE + ["dumpload", "add_constraint", "intersection", "poly_hull", "affine_image", "add_dims_embed", "remove_higher", "unconstrain", "assign", "swap"]
     splans = []
     for dom, ty in (("box", "mpq"), ("box", "dbl"), ("bds", "flt"), ("bds", "mpq"), ("oct", "dbl"), ("oct", "mpz")):
-        splans.append(dict(dom=dom, ty=ty, maxlen=9, maxdim=2, ill=0, coef=2, num=(500 if q else 6000), opset=sops, recipe=True))
-        splans.append(dict(dom=dom, ty=ty, maxlen=8, maxdim=2, ill=0, coef=2, num=(200 if q else 3000), opset=["from_cs", "from_gs", "new", "dumpload", "dumpload", "min_constraints", "is_empty", "add_constraint", "poly_hull", "swap"]))
+        splans.append(dict(dom=dom, ty=ty, maxlen=9, maxdim=2, ill=0, coef=2, num=(500 if q else 1500), opset=sops, recipe=True))
+        splans.append(dict(dom=dom, ty=ty, maxlen=8, maxdim=2, ill=0, coef=2, num=(200 if q else 800), opset=["from_cs", "from_gs", "new", "dumpload", "dumpload", "min_constraints", "is_empty", "add_constraint", "poly_hull", "swap"]))
     shapelib.run_shapes(run, "C15", splans)
     # grids
     from . import c05
-    c05.run_grid(run, [dict(maxlen=9, maxdim=2, ill=0, coef=2, num=(600 if q else 8000), recipe=True,
+    c05.run_grid(run, [dict(maxlen=9, maxdim=2, ill=0, coef=2, num=(600 if q else 2000), recipe=True,
                             opset=["from_cs", "from_gs", "from_cgs", "new", "dumpload", "add_congruence", "add_grid_generator", "intersection", "upper_bound", "affine_image", "is_empty", "congruences", "grid_generators", "min_congruences", "swap", "assign"]),
-                       dict(maxlen=8, maxdim=2, ill=0, coef=2, num=(300 if q else 4000),
+                       dict(maxlen=8, maxdim=2, ill=0, coef=2, num=(300 if q else 1000),
                             opset=["from_cs", "from_gs", "from_cgs", "new", "dumpload", "dumpload", "add_congruence", "add_grid_generator", "is_empty", "min_congruences", "swap"])], ("C15:",))
